@@ -952,7 +952,91 @@ def _inl(rule):
 
 
 INLINED_VIEW = False
-RULES_PLAIN = [rule_mirror, rule_chunks, rule_encoder_twins, rule_cleanup_loop, rule_link_agreement, rule_path_stack, rule_apply_diff, rule_expand_all_isolation]
+def rule_id_attr(model):
+    r = RuleResult('C20.R9', 'every node id (state, links, expand_all) is '
+                   'read with the id attribute configured on the tag '
+                   '(args[\'id\']): an id computed with another attribute '
+                   'names no node of the tree that is rendered')
+    m = model.module('TreeTag')
+    ex = m.funcs.get('extract_id')
+    if ex is None:
+        raise AnalysisError('TreeTag.extract_id not found')
+
+    def callers(fn):
+        out = []
+        for g in m.funcs.values():
+            for c in own_nodes(g.node):
+                if isinstance(c, ast.Call) and fn.where in \
+                        model.callee_names(c, g):
+                    out.append((g, c))
+        return out
+
+    def arg_for(fn, call, pname):
+        ps = fn.params()
+        if pname in ps:
+            i = ps.index(pname)
+            if i < len(call.args) and not any(
+                    isinstance(a, ast.Starred) for a in call.args[:i + 1]):
+                return call.args[i]
+        for k in call.keywords:
+            if k.arg == pname:
+                return k.value
+        return None
+
+    def origin(e, g, depth=0):
+        """'configured' | reason string"""
+        if isinstance(e, ast.Subscript) and isinstance(
+                e.slice, ast.Constant) and e.slice.value == 'id':
+            return 'configured'
+        if isinstance(e, ast.Constant):
+            return f'the constant {e.value!r}'
+        if isinstance(e, ast.Name) and depth < 4:
+            defs = model.local_defs(g, e.id)
+            if defs == ['param']:
+                cs = callers(g)
+                if not cs:
+                    return f'parameter {e.id} of an uncalled function'
+                for g2, c in cs:
+                    a = arg_for(g, c, e.id)
+                    if a is None:
+                        d = model.param_default(g, e.id)
+                        if d is None:
+                            return f'parameter {e.id} not passed'
+                        return (f'the default {norm(d)} of parameter '
+                                f'{e.id} (not passed at {g2.where})')
+                    o = origin(a, g2, depth + 1)
+                    if o != 'configured':
+                        return o
+                return 'configured'
+            vals = [d for d in defs if isinstance(d, ast.AST)]
+            if vals and len(vals) == len(defs):
+                for v in vals:
+                    o = origin(v, g, depth + 1)
+                    if o != 'configured':
+                        return o
+                return 'configured'
+        return f'`{norm(e)}`'
+    n = 0
+    for g, c in callers(ex):
+        if len(c.args) < 2:
+            continue
+        n += 1
+        o = origin(c.args[1], g)
+        r.instance(g.where, c, 'configured id attribute'
+                   if o == 'configured' else o)
+        if o != 'configured':
+            r.finding(g.where, c, f'the id is read with {o} instead of the '
+                      'id attribute configured on the tag: with '
+                      '<dtml-tree id="..."> these ids name no node of the '
+                      'rendered tree (expand_all shows nothing expanded)',
+                      node=c, ctx=g)
+    if n < 3:
+        raise AnalysisError(f'C20.R9: only {n} extract_id calls found')
+    r.floor = 3
+    return r
+
+
+RULES_PLAIN = [rule_mirror, rule_chunks, rule_encoder_twins, rule_cleanup_loop, rule_link_agreement, rule_path_stack, rule_apply_diff, rule_expand_all_isolation, rule_id_attr]
 RULES = [_inl(r_) for r_ in RULES_PLAIN] if INLINED_VIEW else RULES_PLAIN
 EXPLANATION = (
     'Stage extraction of the encoder and decoder pipelines and comparison '
